@@ -58,6 +58,13 @@ def check_comment(case):
         raise Fail(f'rendering changed the comment object: {c.lines!r}', 'render-mutates')
     if str(c) != first:
         raise Fail('second rendering differs from the first', 'not-idempotent')
+    # a copy of a comment is a comment: it renders the same text as comment lines
+    import copy
+    for how, dup in (('copy.copy', copy.copy(c)), ('copy.deepcopy', copy.deepcopy(c))):
+        if str(dup) != first:
+            raise Fail(f'{how} of the comment renders {str(dup)!r} instead of {first!r}', 'copy-renders')
+    if c.lines != ra or str(c) != first:
+        raise Fail('copying changed the comment object', 'copy-mutates')
     # extend, render again
     if case['how'] == 'append':
         c.append(c17.real(b))
